@@ -43,6 +43,12 @@ INSERT INTO s1.accounts (id, name, note) VALUES ($1, $2, $3);
 
 -- name: RenameArchive :exec
 UPDATE s1.accounts SET name = $1, note = $2 WHERE id = $3;
+
+-- name: Derived :many
+SELECT f.id, f.note FROM (SELECT id, note, age FROM accounts) AS f WHERE f.age > 3;
+
+-- name: Shadow :many
+SELECT accounts.id, accounts.name FROM (SELECT id, name FROM orders) AS accounts;
 """
 
 # what each result column / parameter of the fixed queries really is: (schema, table, column); None = not a plain column
@@ -58,6 +64,9 @@ TRUTH = {
     ("result", "Aliased"): [A + ("id",), A + ("name",)],
     ("param", "InsertArchive"): [S + ("id",), S + ("name",), S + ("note",)],
     ("param", "RenameArchive"): [S + ("name",), S + ("note",), S + ("id",)],
+    # through a sub-select in FROM: the column is still the base table's column, whatever the sub-select is called
+    ("result", "Derived"): [A + ("id",), A + ("note",)],
+    ("result", "Shadow"): [O + ("id",), O + ("name",)],
 }
 
 GO_TYPES = ["github.com/segmentio/ksuid.KSUID", "string", "int64", "github.com/x/y/v2.Thing", "example.com/go-pkg.T",
